@@ -1,5 +1,6 @@
 (* conversions between OCaml ints/strings and the extracted inductive numbers *)
 open Model
+type string = Stdlib.String.t
 
 let rec pos_of_int (i : int) : positive =
   if i = 1 then XH else if i land 1 = 0 then XO (pos_of_int (i lsr 1)) else XI (pos_of_int (i lsr 1))
@@ -51,3 +52,16 @@ let split_ws (s : string) : string list =
 let out = Buffer.create 65536
 let pr fmt = Printf.bprintf out fmt
 let spec opidx name ok detail = pr "spec %d %s %s %s\n" opidx (if ok then "ok" else "FAIL") name detail
+
+(* Coq string (site labels of Fault) -> OCaml string *)
+let int_of_ascii (a : ascii) : int =
+  match a with
+  | Ascii (b0, b1, b2, b3, b4, b5, b6, b7) ->
+      let v b k = if b then 1 lsl k else 0 in
+      v b0 0 + v b1 1 + v b2 2 + v b3 3 + v b4 4 + v b5 5 + v b6 6 + v b7 7
+let rec ocaml_of_coqstring (s : Model.string) : string =
+  match s with
+  | EmptyString -> ""
+  | String (a, r) -> Stdlib.String.make 1 (Char.chr (int_of_ascii a)) ^ ocaml_of_coqstring r
+let site (s : Model.string) : string =
+  Stdlib.String.map (fun c -> if c = ' ' then '_' else c) (ocaml_of_coqstring s)
